@@ -99,17 +99,25 @@ class Layout:
 
 
 def make_lazy(pdf, layout, which=0):
+    """layout.kind 'np': spec = npartitions for every table;
+    'cuts': spec = (cuts for df/df3, cuts for df2) as tuples of piece lengths (0 = empty partition)."""
     import dask_expr as dx
 
-    spec = layout.spec[which] if isinstance(layout.spec, (list, tuple)) and layout.spec and isinstance(layout.spec[0], (list, tuple, int)) and layout.kind == "multi" else layout.spec
-    if layout.kind == "np" or (layout.kind == "multi" and isinstance(spec, int)):
-        k = spec if isinstance(spec, int) else spec[which % len(spec)]
-        out = dx.from_pandas(pdf, npartitions=k, sort=True)
+    if layout.kind == "np":
+        out = dx.from_pandas(pdf, npartitions=layout.spec, sort=True)
         if not layout.known:
             out = out.clear_divisions()
         return out
-    lens = spec
-    bounds = np.cumsum([0] + list(lens))
+    lens = list(layout.spec[1] if which == 1 else layout.spec[0])
+    if which == 2:
+        lens = lens[::-1]
+    if sum(lens) != len(pdf):
+        # rescale the last piece so that the cuts cover this table
+        lens = [l for l in lens]
+        lens[-1] += len(pdf) - sum(lens)
+        if lens[-1] < 0:
+            lens = [len(pdf)]
+    bounds = np.cumsum([0] + lens)
     pieces = [pdf.iloc[a:b] for a, b in zip(bounds, bounds[1:])]
     divisions = None
     if layout.known and pdf.index.is_monotonic_increasing and all(len(p) for p in pieces):
@@ -188,6 +196,8 @@ def P(name, fn, **kw):
         src = inspect.getsource(fn)
     except Exception:
         src = ""
+    if kw.get("tags") and set(kw["tags"]) & {"head", "tail"}:
+        kw.setdefault("dask_only", True)  # head(n) reads the first partition(s) only: no layout-free pandas meaning
     if "reset_index" in src:
         kw.setdefault("index_free", True)  # per-partition RangeIndex: labels documented as unspecified
     if ".groupby(" in src and "sort=True" not in src and name not in ("gb_cumsum", "gb_cumcount"):
@@ -363,7 +373,7 @@ P("gb_median", lambda t: t.df.groupby("a").u.median())
 P("gb_transform", lambda t: t.df.groupby("a").u.transform("sum"), order_free=True)
 P("gb_cumsum", lambda t: t.df.groupby("a").u.cumsum())
 P("gb_cumcount", lambda t: t.df.groupby("a").cumcount())
-P("gb_apply", lambda t: t.df.groupby("a").u.apply(lambda s: s.sum() * 2, **t.kw(meta=("u", "int64"))), order_free=True)
+P("gb_apply", lambda t: t.df.groupby("a").u.apply(lambda s: s.sum() * 2, **t.kw(meta=("u", "int64"))), order_free=True, tags={"user_meta"})
 P("gb_idxmax", lambda t: t.df.groupby("a").u.idxmax())
 P("gb_value_counts", lambda t: t.df.groupby("a").f.value_counts(), order_free=True)
 P("gb_min_proj", lambda t: t.df.groupby("a").min()[["u", "b"]])
@@ -416,6 +426,7 @@ P("sort_nan", lambda t: t.df[["b", "u"]].sort_values("b")[["b"]].reset_index(dro
 P("sort_two", lambda t: t.df.sort_values(["a", "u"])[["a", "u"]], tags={"sort"})
 P("sort_desc", lambda t: t.df.sort_values(["a", "u"], ascending=False).u, tags={"sort"})
 P("sort_then_head", lambda t: t.df.sort_values("u", ascending=False).head(3) if not t.lazy else t.df.sort_values("u", ascending=False).head(3, compute=False), tags={"sort"})
+P("sort_then_tail", lambda t: t.df.sort_values("u").tail(2) if not t.lazy else t.df.sort_values("u").tail(2, compute=False), tags={"sort"})
 P("sort_filter", lambda t: (lambda y: y[y.a > 1])(t.df.sort_values("u", ascending=False)), tags={"sort"})
 P("set_index_unique", lambda t: t.df.set_index("u"), tags={"sort"})
 P("set_index_dups", lambda t: t.df.set_index("a")[["u"]].reset_index().sort_values(["a", "u"]).reset_index(drop=True), tags={"sort"})
@@ -647,7 +658,10 @@ def _make_generated(name):
             fn,
             order_free=bool(set(ops) & _U_ORDER_FREE) or cons == "gb",
             index_free=bool(set(ops) & _U_INDEX_FREE),
-            dask_only=bool(set(ops) & _U_DASK_ONLY) or cons in _C_DASK_ONLY,
+            dask_only=bool(set(ops) & _U_DASK_ONLY)
+            or cons in _C_DASK_ONLY
+            or (cons == "idx" and bool(set(ops) & _U_INDEX_FREE))  # the result IS the undefined labels
+            or (cons in ("head4_all", "tail2", "head3") and bool(set(ops) & _U_ORDER_FREE)),  # head of an unordered frame
             tags=tags | {"generated"},
         )
     if parts[0] == "pred":
